@@ -230,7 +230,7 @@ theorem singleMinus_any (x : Blk) (sa : Strand) (b : Location) (ms : Bool) (hx :
     (h : singleMinus x sa b ms = .ok r) :
     wfLocation r = true ∧ ∀ t ∈ locationBlocks r, t.2 ≤ x.2 := by
   unfold singleMinus at h
-  cases ho : hasOverlap (.single x sa) b ms false with
+  cases ho : hasOverlapN (.single x sa) b ms false with
   | error e => rw [ho] at h; cases h
   | ok v =>
     rw [ho, ok_bind] at h
@@ -273,12 +273,11 @@ theorem singleMinus_any (x : Blk) (sa : Strand) (b : Location) (ms : Bool) (hx :
 
 /-- `SingleInterval.minus` for a subtrahend that is not self-overlapping -/
 theorem singleMinus_spec (x : Blk) (sa : Strand) (b : Location) (ms : Bool) (hx : x.1 ≤ x.2) (hb : WF b)
-    (hno : nonOverlapLoc b = true) (hq : ¬ (b = .empty ∧ ms = true)) :
+    (hno : nonOverlapLoc b = true) :
     ∃ r, singleMinus x sa b ms = .ok r ∧ strandIs r (some sa) = true ∧
       ∀ p, locationCovers r p =
         (coversBlocks [x] p && !(strandGate (.single x sa) b ms && locationCovers b p)) := by
-  have hq' : ¬ ((Location.single x sa) ≠ .empty ∧ b = .empty ∧ ms = true) := fun hh => hq hh.2
-  have hov := hasOverlap_spec (.single x sa) b hx hb ms false hq'
+  have hov := hasOverlapN_spec (.single x sa) b hx hb ms false
   unfold singleMinus
   rw [hov, ok_bind]
   have hcommon : ∀ p, coversBlocks [x] p = true → locationCovers b p = true →
@@ -389,7 +388,7 @@ theorem parts_any (st : Strand) (b : Location) (ms : Bool) (A : List Blk) (parts
       omega
 
 theorem parts_cov (st : Strand) (b : Location) (ms : Bool) (hb : WF b) (hno : nonOverlapLoc b = true)
-    (hq : ¬ (b = .empty ∧ ms = true)) (G : Bool) (hG : ∀ x, strandGate (.single x st) b ms = G)
+    (G : Bool) (hG : ∀ x, strandGate (.single x st) b ms = G)
     (A : List Blk) (parts : List Location)
     (h : Zip (fun x r => singleMinus x st b ms = .ok r) A parts) (hv : ∀ x ∈ A, x.1 ≤ x.2) :
     ∀ p, coversBlocks (parts.flatMap locBlocks) p = (coversBlocks A p && !(G && locationCovers b p)) := by
@@ -397,7 +396,7 @@ theorem parts_cov (st : Strand) (b : Location) (ms : Bool) (hb : WF b) (hno : no
   | nil => intro p; rfl
   | @cons x r A' parts' hx _ ih =>
     intro p
-    obtain ⟨r', hr', _, hcov⟩ := singleMinus_spec x st b ms (hv x (by simp)) hb hno hq
+    obtain ⟨r', hr', _, hcov⟩ := singleMinus_spec x st b ms (hv x (by simp)) hb hno
     rw [hx] at hr'
     cases hr'
     rw [List.flatMap_cons, coversBlocks_append, locBlocks_eq, ← locationCovers_eq, hcov p, hG,
@@ -411,7 +410,7 @@ theorem compoundMinus_any (la : Loc) (b : Location) (ms : Bool) (hla : la.Canon)
     wfLocation r = true ∧ ∀ t ∈ locationBlocks r, t.2 ≤ maxEndOf la.blocks := by
   obtain ⟨A, st⟩ := la
   unfold compoundMinus at h
-  cases ho : hasOverlap (.compound ⟨A, st⟩) b ms false with
+  cases ho : hasOverlapN (.compound ⟨A, st⟩) b ms false with
   | error e => rw [ho] at h; cases h
   | ok v =>
     rw [ho, ok_bind] at h
@@ -454,13 +453,12 @@ theorem compoundMinus_any (la : Loc) (b : Location) (ms : Bool) (hla : la.Canon)
 
 /-- `CompoundInterval.minus` for a subtrahend that is not self-overlapping -/
 theorem compoundMinus_spec (la : Loc) (b : Location) (ms : Bool) (hla : la.Canon) (hb : WF b)
-    (hno : nonOverlapLoc b = true) (hq : ¬ (b = .empty ∧ ms = true)) :
+    (hno : nonOverlapLoc b = true) :
     ∃ r, compoundMinus la b ms = .ok r ∧ strandIs r (some la.strand) = true ∧
       ∀ p, locationCovers r p =
         (coversBlocks la.blocks p && !(strandGate (.compound la) b ms && locationCovers b p)) := by
   obtain ⟨A, st⟩ := la
-  have hq' : ¬ ((Location.compound ⟨A, st⟩) ≠ .empty ∧ b = .empty ∧ ms = true) := fun hh => hq hh.2
-  have hov := hasOverlap_spec (.compound ⟨A, st⟩) b hla hb ms false hq'
+  have hov := hasOverlapN_spec (.compound ⟨A, st⟩) b hla hb ms false
   unfold compoundMinus
   rw [hov, ok_bind]
   have hcommon : ∀ p, coversBlocks A p = true → locationCovers b p = true →
@@ -493,12 +491,12 @@ theorem compoundMinus_spec (la : Loc) (b : Location) (ms : Bool) (hla : la.Canon
       have hvA := (blocksValid_iff _).mp hla.2.1
       obtain ⟨parts, hparts⟩ := mapM_ok_of (fun x => singleMinus x st b ms) A (by
         intro x hx
-        obtain ⟨r, hr, _⟩ := singleMinus_spec x st b ms (hvA x hx) hb hno hq
+        obtain ⟨r, hr, _⟩ := singleMinus_spec x st b ms (hvA x hx) hb hno
         exact ⟨r, hr⟩)
       rw [hparts, ok_bind]
       have hF := mapM_forall₂ _ _ _ hparts
       have hval := parts_any st b ms A parts hF hvA
-      have hcov := parts_cov st b ms hb hno hq true (fun x => by rw [← hg]; rfl) A parts hF hvA
+      have hcov := parts_cov st b ms hb hno true (fun x => by rw [← hg]; rfl) A parts hF hvA
       simp only [Bool.true_and]
       simp only [Bool.true_and] at hcov
       generalize List.flatMap locBlocks parts = rbs at hcov hval
@@ -601,21 +599,10 @@ theorem okMinus_assemble (a b : PLoc) (ms : Bool) (r : Location) (hno : nonOverl
     intro p _
     rw [hcov p]; simp
 
-theorem minusP_dom (a b : PLoc) (ha : WFP a) (hb : WFP b) (ms : Bool) (hq : ¬ EmptyArgQuirk a b ms)
+theorem minusP_dom (a b : PLoc) (ha : WFP a) (hb : WFP b) (ms : Bool)
     (hno : nonOverlapLoc b.1 = true) :
     okMinus a b ms false (ans (minusP a b ms false)) = true := by
   obtain ⟨al, ap⟩ := a
-  have hq' : sameParent ap b.2 = true → ¬ (b.1 = .empty ∧ ms = true) ∨ al = .empty := by
-    intro hsp
-    by_cases he : al = .empty
-    · exact Or.inr he
-    · left
-      rintro ⟨h2, h3⟩
-      apply hq
-      refine ⟨he, h2, h3, ?_⟩
-      have hb2 := hb.2.1 h2
-      rw [hb2, sameParent_nil_right] at hsp
-      simpa using hsp
   cases al with
   | empty =>
     have : minusP (.empty, ap) b ms false = .ok (withPar .empty ap) := rfl
@@ -635,11 +622,7 @@ theorem minusP_dom (a b : PLoc) (ha : WFP a) (hb : WFP b) (ms : Bool) (hq : ¬ E
       · intro p; simp [active, hsp]
       · simp [strandIs]
     | true =>
-      have hqq : ¬ (b.1 = .empty ∧ ms = true) := by
-        rcases hq' hsp with h | h
-        · exact h
-        · cases h
-      obtain ⟨r, hr, hst, hcov⟩ := singleMinus_spec x sa b.1 ms hx hb.1 hno hqq
+      obtain ⟨r, hr, hst, hcov⟩ := singleMinus_spec x sa b.1 ms hx hb.1 hno
       have : minusP (.single x sa, ap) b ms false = .ok (withPar r ap) := by
         simp [minusP, parentGate_eq, hsp, hr]; rfl
       have hres := minusP_resultOk (.single x sa, ap) b ha ms _ this
@@ -661,11 +644,7 @@ theorem minusP_dom (a b : PLoc) (ha : WFP a) (hb : WFP b) (ms : Bool) (hq : ¬ E
       refine okMinus_assemble (.compound la, ap) b ms ro hno hres hso.ends_le ?_ hso.strandIs
       intro p; rw [hso.locationCovers]; simp [active, hsp, locationCovers, covers]
     | true =>
-      have hqq : ¬ (b.1 = .empty ∧ ms = true) := by
-        rcases hq' hsp with h | h
-        · exact h
-        · cases h
-      obtain ⟨r, hr, hst, hcov⟩ := compoundMinus_spec la b.1 ms hla hb.1 hno hqq
+      obtain ⟨r, hr, hst, hcov⟩ := compoundMinus_spec la b.1 ms hla hb.1 hno
       have : minusP (.compound la, ap) b ms false = .ok (withPar r ap) := by
         simp [minusP, parentGate_eq, hsp, hr]; rfl
       have hres := minusP_resultOk (.compound la, ap) b ha ms _ this
@@ -683,11 +662,11 @@ open BioCantor BioCantor.Spec BioCantor.Model
     positions of `b` (all of `a` when the parents are incompatible or, under match_strand, the strands differ), on the
     strand of `a`, well formed, inside the parent; for a self-overlapping subtrahend the call may refuse, and whatever it
     returns is well formed -/
-theorem minusP_ok (a b : PLoc) (ha : WFP a) (hb : WFP b) (ms strict : Bool) (hq : ¬ EmptyArgQuirk a b ms) :
+theorem minusP_ok (a b : PLoc) (ha : WFP a) (hb : WFP b) (ms strict : Bool) :
     okMinus a b ms strict (ans (minusP a b ms strict)) = true := by
   have hfalse : okMinus a b ms false (ans (minusP a b ms false)) = true := by
     by_cases hno : nonOverlapLoc b.1 = true
-    · exact Minus.minusP_dom a b ha hb ms hq hno
+    · exact Minus.minusP_dom a b ha hb ms hno
     · cases hm : minusP a b ms false with
       | error e => simp [okMinus, hno]
       | ok r =>
@@ -707,9 +686,7 @@ theorem minusP_ok (a b : PLoc) (ha : WFP a) (hb : WFP b) (ms strict : Bool) (hq 
       rw [this]; exact hfalse
 
 example : WFP ((.compound ⟨[(0, 2), (2, 2), (3, 9)], .minus⟩), [(some "chrA", none, some ['A','C','G','T','A','C','G','T','A'])]) ∧
-    WFP ((.compound ⟨[(1, 4), (4, 5), (8, 9)], .plus⟩), [(some "chrA", none, some ['A','C','G','T','A','C','G','T','A'])]) ∧
-    ¬ EmptyArgQuirk ((.compound ⟨[(0, 2), (2, 2), (3, 9)], .minus⟩), [(some "chrA", none, some ['A','C','G','T','A','C','G','T','A'])])
-      ((.compound ⟨[(1, 4), (4, 5), (8, 9)], .plus⟩), [(some "chrA", none, some ['A','C','G','T','A','C','G','T','A'])]) false := by
+    WFP ((.compound ⟨[(1, 4), (4, 5), (8, 9)], .plus⟩), [(some "chrA", none, some ['A','C','G','T','A','C','G','T','A'])]) := by
   decide
 
 end BioCantor.Proofs
